@@ -571,7 +571,7 @@ func c14Fail(cs *Case, sig, msg string) {
 }
 
 func runC14Case(id string, c *c14Case) {
-	defer recoverCase(id, c)
+	defer watchCase(id, c)()
 	cs := &Case{ID: id, Kind: c.Transport + "/" + map[bool]string{true: "strict", false: "nostrict"}[c.Strict] + "/" + c.KH + "/" + c.Auth,
 		HypOK: true, Replay: c}
 	cs.Nontrivial = c.Strict || c.KH == "other" || c.KH == "empty" || strings.Contains(c.KH, "revoked")
